@@ -226,9 +226,11 @@ var c15Variations = []string{"rerun", "extra_files", "multi_invocation", "permut
 func c15Spellings(plug string) [][2]string {
 	switch plug {
 	case plugin.OpenAPI:
-		return [][2]string{{"", "format=yaml"}, {"format=yaml", "format=yml"}, {"format=json", " format = json "}, {"format=json", "x=1,format=json"}, {"format=json", "format=json,x=1"}}
+		return [][2]string{{"", "format=yaml"}, {"format=yaml", "format=yml"}, {"format=json", " format = json "}, {"format=json", "x=1,format=json"}, {"format=json", "format=json,x=1"},
+			// the position of a parameter in a longer list does not matter either
+			{"format=json", "x=1,y=2,format=json"}, {"format=json", "x=1,format=json,y=2"}, {"format=yaml", "x=1,y=2,z=3,format=yaml"}}
 	case plugin.GoHTTP:
-		return [][2]string{{"", "generate_mock=false"}, {"generate_mock=true", "generate_mock=1"}, {"", "paths=import"}}
+		return [][2]string{{"", "generate_mock=false"}, {"generate_mock=true", "generate_mock=1"}, {"", "paths=import"}, {"generate_mock=true", "paths=import,generate_mock=true"}}
 	default:
 		return [][2]string{{"", "paths=import"}}
 	}
